@@ -92,7 +92,7 @@ func init() {
 		},
 		Phases: plainPhase("timed"),
 		Run: func(c *mon.Ctx) {
-			n := c.Pick(20000, 400000)
+			n := c.Pick(20000, 3000000)
 			const conc = 256
 			ev := c.Counter("evaluations")
 			exp, fresh, unc := c.Counter("decisions_certainly_expired"), c.Counter("decisions_certainly_fresh"), c.Counter("decisions_uncertain")
